@@ -1323,7 +1323,14 @@ def np_linspace(I, args, kw):
     zn = to_int_z(num)
     div_ep = mk(z3.If(zn > 1, z3.ToReal(zn) - 1, z3.RealVal(1)))
     div_no = mk(z3.If(zn > 0, z3.ToReal(zn), z3.RealVal(1)))
-    step = v_ite(ep, v_truediv(span, div_ep, None), v_truediv(span, div_no, None))
+    if concrete(num) or (concrete(span) and concrete(endpoint)):
+        step = v_ite(ep, v_truediv(span, div_ep, None), v_truediv(span, div_no, None))
+    else:
+        # the step is named and defined by a product (step * divisor == span, divisor >= 1) rather than by a symbolic
+        # division: the same value, far easier on the nonlinear solvers
+        div = v_ite(ep, div_ep, div_no)
+        step = I.ctx.fresh("linstep", "real")
+        I.ctx.fact(z_of(v_cmp("Eq", v_mul(step, div), span)))
     length = mk(z3.If(zn > 0, zn, 0))
     if isinstance(length, int) and length <= 64:
         return Arr([v_add(start, v_mul(i, step)) for i in range(length)]) if False else tuple(v_add(start, v_mul(i, step)) for i in range(length))
